@@ -732,6 +732,16 @@ func (e *Env) call(x *Expr) Val {
 			return Val{T: ee.asSeq(v), Sort: "(Seq Int)"}
 		}
 		return ee.rv(v)
+	case "mapcells":
+		// mapcells(m): the whole content of map m (a modifies item)
+		b := e.rv(e.tr(x.Args[0]))
+		if b.Sort != "Loc" || b.GoT == nil {
+			fail("mapcells() needs a map")
+		}
+		if _, ok := b.GoT.Underlying().(*types.Map); !ok {
+			fail("mapcells() needs a map")
+		}
+		return Val{Addr: b.T, MapCells: true, GoT: b.GoT}
 	case "objof":
 		// objof(x): identity of the allocated object a pointer or slice refers to
 		b := e.rv(e.tr(x.Args[0]))
